@@ -110,13 +110,30 @@ def snapshot_globals():
                 continue
             if type(obj) in (dict, list, set):
                 note(obj)
+            elif type(obj) in _SCALARS:
+                _SCALAR_SNAPSHOT.append((mod, attr, obj))
             elif isinstance(obj, type) and getattr(obj, '__module__', '').startswith('txtorcon'):
                 for cattr, cobj in sorted(vars(obj).items()):
-                    if not cattr.startswith('__') and type(cobj) in (dict, list, set):
+                    if cattr.startswith('__'):
+                        continue
+                    if type(cobj) in (dict, list, set):
                         note(cobj)
+                    elif type(cobj) in _SCALARS:
+                        # counters, flags and limits kept on a class (or module): reset as well
+                        _SCALAR_SNAPSHOT.append((obj, cattr, cobj))
+
+
+_SCALARS = (int, float, bool, str, bytes, type(None), tuple, frozenset)
+_SCALAR_SNAPSHOT = []
 
 
 def restore_globals():
+    for owner, attr, saved in _SCALAR_SNAPSHOT:
+        try:
+            if getattr(owner, attr, _SCALAR_SNAPSHOT) is not saved:
+                setattr(owner, attr, saved)
+        except Exception:
+            pass
     for container, saved in _GLOBAL_SNAPSHOT:
         if type(container) is list:
             if container != saved:
